@@ -369,8 +369,8 @@ theorem nums_eq (xs : List S) : nums xs = (xs.filterMap numS).map Num.toRat := b
   funext x
   exact numOf_eq x
 
-/-- a value of the property's domain: a number, or a text that is not numeric (the empty string an
-    empty cell of a range holds is one) -/
+/-- a value of the property's domain that is not a BLANK: a number, or a text that is not numeric (the
+    empty string of a cell explicitly emptied is one) -/
 def InDom (ext : Ext) : S → Prop
   | .num _ => True
   | .text s => textNumber ext s = NumR.xl Code.value
@@ -383,7 +383,8 @@ theorem castItem_dom {ext : Ext} {x : S} (h : InDom ext x) :
 theorem errOf_dom {ext : Ext} {x : S} (h : InDom ext x) : errOf (typedPy x) = none := by
   cases x <;> simp [InDom] at h <;> rfl
 
-/-- the domain with BLANK objects (a reference to a never-stored cell) admitted: the number lists
+/-- the property's domain: also BLANK objects (an empty member of a range, a reference to a never-stored
+    cell) are admitted: the number lists
     skip them, SUMPRODUCT counts them as zero -/
 def InDomB (ext : Ext) (x : S) : Prop := x = S.blank ∨ InDom ext x
 
